@@ -95,6 +95,16 @@ def check_config(ctx, F, tag):
     # ---------------- R2 twins
     for a, b_, subst, what in TWINS:
         A, B = F.body(a), F.body(b_)
+        # one twin may simply delegate to the other with its own parameters (then they agree by construction)
+        dele = None
+        for X, Y in ((A, B), (B, A)):
+            calls = [t for _, t in X.calls() if callee_name(t) == Y.name]
+            if len(calls) == 1 and all(core(X.term_of_operand(arg))[:2] == ("param", i) for i, arg in enumerate(calls[0]["args"])) and \
+                    (calls[0]["dest"]["l"] == 0 or core(X.term_of_local(0)) == core(X.term_of_call(calls[0]))):
+                dele = "%s delegates to %s with its own parameters" % (X.name.split("::")[-1], Y.name.split("::")[-1])
+        if dele:
+            ctx.ob("C01.R2.twins-isomorphic", "%s ~ %s%s" % (a.split("::")[-1], b_.split("::")[-1], tag), loc(A.raw["span"]), True, "delegation", dele)
+            continue
         ok, info = twins.compare(A, B, subst)
         ctx.ob("C01.R2.twins-isomorphic", "%s ~ %s%s" % (a.split("::")[-1], b_.split("::")[-1], tag), loc(A.raw["span"]), ok, "mir-isomorphism",
                ("isomorphic modulo %s (%d statements/terminators compared)" % (what, info)) if ok else ("twins diverge (allowed difference: %s): %s" % (what, info)))
@@ -127,7 +137,101 @@ def check_config(ctx, F, tag):
                     ctx.ob("C01.R3.cached-count", b.name + tag, loc(st["sp"]), ok, "term-provenance", "ones = count_ones() of the local that becomes data: %s" % ok)
     ctx.count("bitvector-aggregates" + tag, n)
     ctx.floor("bitvector-aggregates" + tag, 3)
+    check_select_layout(ctx, F, tag)
     co = F.body("<bit_vector::BitVector as ops::BitVec<'a>>::count_ones")
     ctx.ob("C01.R3.count-ones-is-cached-field", co.name + tag, loc(co.raw["span"]), self_path(co.term_of_local(0)) == ["ones"], "term-shape", "count_ones() = %s" % tstr(co.term_of_local(0)), nontrivial=False)
     ln = F.body("<bit_vector::BitVector as ops::BitVec<'a>>::len")
     ctx.ob("C01.R3.len-is-data-len", ln.name + tag, loc(ln.raw["span"]), m(Call("raw_vector::RawVector::len", SelfField("data")), ln.term_of_local(0)), "term-shape", "len() = %s" % tstr(ln.term_of_local(0)), nontrivial=False)
+
+
+def ref_field(b, o):
+    """Field name of the place whose reference operand `o` holds (e.g. `&mut result.long` -> 'long'), following reborrows."""
+    from facts import operand_place
+    p = operand_place(o)
+    for _ in range(8):
+        if p is None:
+            return None
+        names = [e.get("name") for e in p["p"] if isinstance(e, dict) and "f" in e]
+        if names:
+            return names[-1]
+        ds = [d for d in b.defs().get(p["l"], []) if d[2] == "assign"]
+        if len(ds) != 1:
+            return None
+        rv = ds[0][3]
+        if rv["r"] in ("ref", "rawptr"):
+            p = rv["p"]
+        elif rv["r"] == "use":
+            p = operand_place(rv["o"])
+        else:
+            return None
+    return None
+
+
+def check_select_layout(ctx, F, tag):
+    """R4: what SelectSupport::new stores and what select() reads agree: offsets in long/short are relative to the position sample pushed
+    for the superblock, and the long/short tag bit is written and read with the same parity."""
+    from guards import facts_at
+    from serfmt import rpo
+    nb = F.body(SS + "new")
+    where = loc(nb.raw["span"])
+    order = rpo(nb)
+    pushes = {}
+    for bi, t in nb.calls():
+        if callee_name(t).endswith("Push>::push") and bi in nb.loop_blocks():
+            fld = ref_field(nb, t["args"][0])
+            pushes.setdefault(fld, []).append((order[bi], bi, strip_casts(nb.term_of_operand(t["args"][1]))))
+    if not all(k in pushes for k in ("samples", "long", "short")):
+        raise Undecided("SelectSupport::new: pushes into samples/long/short not recognised (%s)" % sorted(map(str, pushes)))
+    samples = sorted(pushes["samples"])
+    first = samples[0]
+    # the first sample push of an iteration dominates all other pushes of the iteration
+    dom = all(nb.dominates(first[1], bi) for k in ("samples", "long", "short") for _, bi, _ in pushes[k] if bi != first[1])
+    S = first[2]
+    okpos = S[0] == "field" and S[2] == "1"
+    rel = []
+    for k in ("long", "short"):
+        for _, bi, v in pushes[k]:
+            ok = v[0] == "bin" and v[1] == "Sub" and strip_casts(v[3]) == S and strip_casts(v[2])[0] == "field" and strip_casts(v[2])[2] == "1"
+            rel.append((k, ok, tstr(v)[:90]))
+    ptrs = samples[1:]
+    par = {}
+    for _, bi, v in ptrs:
+        # 2 * X.len()  (long)   or   2 * X.len() + 1  (short)
+        odd = m(Bin("Add", Bin("Mul", Const(2), ANY), Const(1)), v)
+        even = m(Bin("Mul", Const(2), ANY), v)
+        lens = [x for x in subterms(v) if x[0] == "call" and x[1].endswith("Vector>::len")]
+        par[bi] = ("odd" if odd else "even" if even else "?", v)
+    # which branch pushes to long / short
+    tagbit = {}
+    for k in ("long", "short"):
+        for _, bi, v in pushes[k]:
+            ps = [pb for pb in par if nb.dominates(pb, bi)]
+            if len(ps) == 1:
+                tagbit[k] = par[ps[0]][0]
+    qb = F.body(SS + "select_unchecked")
+    reads = {}
+    for bi, t in qb.calls():
+        if callee_name(t).endswith("Access<'a>>::get"):
+            fld = (self_path(qb.term_of_operand(t["args"][0])) or [None])[-1]
+            reads.setdefault(fld, []).append((bi, t))
+    qok = all(k in reads for k in ("samples", "long", "short"))
+    qpar = {}
+    qadd = {}
+    if qok:
+        for k in ("long", "short"):
+            bi, t = reads[k][0]
+            for f in facts_at(qb, bi):
+                if f[0] == "cmp" and f[1] in ("Eq", "Ne") and m(Const(0), f[3]) and m(Bin("BitAnd", ANY, Const(1)), f[2]):
+                    qpar[k] = "even" if f[1] == "Eq" else "odd"
+            # the value read is added to the running result that started as samples.get(2 * superblock)
+            dl = t["dest"]["l"]
+            qadd[k] = any(st["s"] == "assign" and st["rv"]["r"] == "bin" and st["rv"]["op"].startswith("Add") and
+                          any(x[0] == "call" and x[1].endswith("Access<'a>>::get") and (self_path(x[2][0]) or [None])[-1] == k for x in subterms(qb.term_of_rvalue(st["rv"])))
+                          for _, _, st in qb.stmts())
+        base = [qb.term_of_rvalue(st["rv"]) for _, _, st in qb.stmts() if st["s"] == "assign" and not st["lhs"]["p"] and qb.local_name(st["lhs"]["l"]) == "result"]
+        qbase = any(m(Call(lambda n_: n_.endswith("Access<'a>>::get"), SelfField("samples"), Bin("Mul", Const(2), ANY)), x) for x in base)
+    ok = dom and okpos and all(o for _, o, _ in rel) and len(rel) >= 2 and qok and tagbit.get("long") == qpar.get("long") == "even" and tagbit.get("short") == qpar.get("short") == "odd" and \
+        qadd.get("long") and qadd.get("short") and qbase
+    ctx.ob("C01.R4.select-store-read-agreement", "SelectSupport" + tag, where, ok, "sibling-agreement",
+           "builder: sample = %s (position component: %s), offsets %s; tag parity written long=%s short=%s; query: result starts at samples[2*sb]: %s, adds long/short reads: %s/%s under tag parity long=%s short=%s" % (
+               tstr(S)[:60], okpos, [(k, o) for k, o, _ in rel], tagbit.get("long"), tagbit.get("short"), qok and qbase, qadd.get("long"), qadd.get("short"), qpar.get("long"), qpar.get("short")))
